@@ -36,7 +36,9 @@ EXHAUSTIVE = {"quick": True, "thorough": True}
 
 ITER_METHODS = ["pre", "post", "level", "level_rtl", "zigzag", "zigzag_rtl"]
 VISIT_METHODS = ["pre", "post", "level"]
-SKIP_FORMS = ["ret_skip_cls", "ret_skip_inst", "raise_skip_cls", "raise_skip_inst"]
+# (a traversal callback has no "self" to keep or drop: SkipBranch(and_self=...) - the argument matters to filters only - is a
+# skip like any other instance)
+SKIP_FORMS = ["ret_skip_cls", "ret_skip_inst", "raise_skip_cls", "raise_skip_inst", "ret_skip_noself", "raise_skip_noself", "ret_skip_andself", "raise_skip_andself"]
 STOP_FORMS = ["ret_false", "ret_stop_cls", "ret_stop_inst", "ret_stop_val", "raise_stop_cls", "raise_stop_val",
               "ret_stopiter_cls", "ret_stopiter_val", "raise_stopiter_cls", "raise_stopiter_val"]
 FORMS = SKIP_FORMS + STOP_FORMS
@@ -138,6 +140,7 @@ def make_signal(form):
     kind, what = form.split("_", 1)
     obj = {
         "skip_cls": SkipBranch, "skip_inst": SkipBranch(), "false": False,
+        "skip_noself": SkipBranch(and_self=False), "skip_andself": SkipBranch(and_self=True),
         "stop_cls": StopTraversal, "stop_inst": StopTraversal(), "stop_val": StopTraversal(41),
         "stopiter_cls": StopIteration, "stopiter_val": StopIteration(41),
     }[what]
@@ -421,7 +424,7 @@ def cases_for_shape(f, *, cls, all_forms, rng):
                 for at in seq:
                     if sh.n >= 3:
                         yield {"cls": cls, "f": fc, "start": s, "method": m, "add_self": add_self, "mode": "visit", "lab": "eq",
-                               "sig": {"at": at, "form": SKIP_FORMS[(at + len(seq)) % 4]}}
+                               "sig": {"at": at, "form": SKIP_FORMS[(at + len(seq)) % len(SKIP_FORMS)]}}
                     forms = FORMS if all_forms else [rng.choice(SKIP_FORMS), rng.choice(STOP_FORMS), rng.choice(FORMS)]
                     for form in forms:
                         yield {"cls": cls, "f": fc, "start": s, "method": m, "add_self": add_self, "mode": "visit",
